@@ -49,6 +49,15 @@ def generate(spec, build_dir):
         replace[os.path.join(REPO, "zz_verif/vsync/vsync.go")] = os.path.join(ROOT, "_shim/vsync.go")
         replace[os.path.join(REPO, "zz_verif/vatomic/vatomic.go")] = os.path.join(ROOT, "_shim/vatomic.go")
         replace[os.path.join(REPO, "zz_verif/sched/sched.go")] = os.path.join(ROOT, "_shim/sched.go")
+    for rel in spec.get("net_to_vnet", []):
+        # read the already rewritten copy if an earlier rule replaced this file.
+        cur = replace.get(os.path.join(REPO, rel), os.path.join(REPO, rel))
+        src = open(cur).read()
+        out = _rewrite_import(src, "net", "github.com/mycoria/mycoria/zz_verif/vnet", "net")
+        dst = os.path.join(odir, rel.replace("/", "__"))
+        open(dst, "w").write(out)
+        replace[os.path.join(REPO, rel)] = dst
+        replace[os.path.join(REPO, "zz_verif/vnet/vnet.go")] = os.path.join(ROOT, "vnet/vnet.go")
     path = os.path.join(odir, "overlay.json")
     json.dump({"Replace": replace}, open(path, "w"), indent=1)
     return path
